@@ -1188,6 +1188,112 @@ def probe_inputs(ctx, cases_in):
     ctx.extra["input_probe_counts"] = stats
 
 
+# ---------------------------------------------------------------------------- histories on ONE path object
+def fresh_path_like(path):
+    """a new path object of the same class with the attributes the given one has NOW"""
+    import types
+    from pyrex.ray_tracing import UniformRayTracePath
+    stub = types.SimpleNamespace(from_point=np.array(path.from_point, float), to_point=np.array(path.to_point, float), ice=path.ice,
+                                 dz=getattr(path, "dz", None))
+    if isinstance(path, UniformRayTracePath):
+        return type(path)(stub, path.theta0, path._reflections)
+    return type(path)(stub, path.theta0, path.direct)
+
+
+def probe_path_histories(ctx, cases_in):
+    """Operation sequences on ONE path object: query (tof / attenuation / propagate fill the lazy caches), change an
+    endpoint -- by assignment, by augmented assignment of the stored array (`path.to_point += off`), by in-place change
+    followed by re-assignment of the same object -- or dz, query again.  After every change the path must behave like a
+    path constructed with its current attributes: same delay (also judged against the quadrature of n ds / c), same
+    attenuation, same propagate output."""
+    import pyrex
+    from pyrex.ray_tracing import BasicRayTracePath, SpecializedRayTracePath, UniformRayTracePath
+    rng = ctx.rng
+    stats = {"histories": 0, "changes": {}, "queries": 0}
+    for tag, desc, rt in cases_in:
+        if tag == "layered" or rng.random() > ctx.n(0.6, 1.0):
+            continue
+        sols = solutions_of(rt)
+        if not sols:
+            continue
+        path = sols[rng.randrange(len(sols))]
+        if not isinstance(path, (BasicRayTracePath, UniformRayTracePath)):
+            continue
+        kind = type(path).__name__
+        si = sols.index(path)
+        stats["histories"] += 1
+        times, x = rand_signal(rng, rng.choice([4, 8, 16]))
+        pol = rand_pol(rng)
+        freqs = np.array([1e8, 5e8, -2e8])
+        ops = []
+
+        def query(p):
+            with np.errstate(all="ignore"):
+                sig = pyrex.Signal(times, x, value_type=pyrex.Signal.Type.field)
+                (ss, sp), (us, up) = call_propagate(p, sig, pol, None)
+                return {"tof": float(p.tof), "att": np.asarray(p.attenuation(freqs), float), "s": np.array(ss.values, float), "p": np.array(sp.values, float),
+                        "t": np.array(ss.times, float), "us": np.asarray(us, float), "up": np.asarray(up, float)}
+        try:
+            query(path)
+        except Exception:
+            continue
+        for step in range(rng.randint(1, 3)):
+            attr = rng.choice(["to_point", "to_point", "from_point"])
+            lo_, hi_ = (path.ice.valid_range[0] + 5.0, path.ice.valid_range[1] - 1.0)
+            cur = np.array(getattr(path, attr), float)
+            dzv = rng.choice([-40.0, -12.5, 7.25, 25.0])
+            if not lo_ < cur[2] + dzv < hi_:
+                dzv = -dzv
+            if not lo_ < cur[2] + dzv < hi_:
+                continue
+            off = np.array([0.0, 0.0, dzv])                      # keep the azimuth: the launch angle stays meaningful
+            how = rng.choice(["assign", "augmented", "augmented", "inplace+reassign", "dz"])
+            if how == "dz" and not (isinstance(path, BasicRayTracePath) and not isinstance(path, SpecializedRayTracePath)):
+                how = "augmented"
+            if how == "assign":
+                setattr(path, attr, cur + off)
+            elif how == "augmented":
+                if attr == "to_point":
+                    path.to_point += off
+                else:
+                    path.from_point += off
+            elif how == "inplace+reassign":
+                arr = getattr(path, attr)
+                arr[2] += dzv
+                setattr(path, attr, arr)
+            else:
+                path.dz = path.dz * rng.choice([0.5, 2.0])
+            ops.append({"op": how, "attribute": attr if how != "dz" else "dz", "offset": [0.0, 0.0, dzv] if how != "dz" else None, "dz": float(getattr(path, "dz", 0) or 0)})
+            stats["changes"][how] = stats["changes"].get(how, 0) + 1
+            rep = {"kind": "path_history", "geometry": desc, "solution": si, "class": kind, "ops": [dict(o) for o in ops], "times": [float(t) for t in times],
+                   "x": [float(v) for v in x], "polarization": [float(v) for v in pol]}
+            ctx.case(key=("path_history", json.dumps(desc, sort_keys=True, default=str), si, step))
+            try:
+                got = query(path)
+                ref = query(fresh_path_like(path))
+            except Exception as ex:
+                break                                            # the changed geometry is not a ray any more (e.g. arcsin > 1): nothing to compare
+            stats["queries"] += 1
+            if not all(np.all(np.isfinite(np.asarray(v, float))) for v in ref.values()):
+                break                                            # not a ray any more (NaN direction / arcsin > 1): nothing to judge
+            same = got["tof"] == ref["tof"] and np.array_equal(got["att"], ref["att"]) and np.array_equal(got["s"], ref["s"]) and np.array_equal(got["p"], ref["p"]) \
+                and np.array_equal(got["t"], ref["t"]) and np.array_equal(got["us"], ref["us"]) and np.array_equal(got["up"], ref["up"])
+            if not same:
+                ctx.fail("path-stale:%s:%s" % (kind, how),
+                         "%s after `%s` of %s: the path does not behave like a path with its current attributes (delay %.9g s vs %.9g s for a new path; attenuation %s vs %s)" % (
+                             kind, how, ops[-1]["attribute"], got["tof"], ref["tof"], got["att"].tolist(), ref["att"].tolist()), rep)
+                break
+            try:
+                with np.errstate(all="ignore"):
+                    T_or = tof_oracle(path)
+                if np.isfinite(T_or) and T_or > 0 and not abs(got["tof"] - T_or) <= tof_allowance(path, T_or) + (log1_tof_bound(path) if isinstance(path, SpecializedRayTracePath) else 0.0):
+                    ctx.fail("path-history-tof:%s:%s" % (kind, how), "%s after `%s`: the applied delay %.9g s is not the time of flight %.9g s of the path's current endpoints" % (kind, how, got["tof"], T_or), rep)
+                    break
+            except Exception:
+                pass
+    ctx.extra["path_history_counts"] = stats
+
+
 # ---------------------------------------------------------------------------- entry points
 def run(ctx):
     ctx.rule = ("geometries: random endpoints for SpecializedRayTracer, BasicRayTracer, UniformRayTracer (1-3 reflections, index above/below varied, total "
@@ -1213,6 +1319,7 @@ def run(ctx):
         cases = fixed_cases() + tracer_cases(ctx.rng, ctx.n(3, 100)) + z_uniform_cases(ctx.rng, ctx.n(4, 60))
         probes(ctx, cases)
         probe_inputs(ctx, cases)
+        probe_path_histories(ctx, cases)
         return
     ok = ctx.coq_build("C03")
     pins = current_pins()
@@ -1232,6 +1339,7 @@ def run(ctx):
     probes(ctx, cases)
     t2 = time.time()
     probe_inputs(ctx, cases)
+    probe_path_histories(ctx, cases)
     ctx.extra["timing_s"] = {"correspondence": round(t1 - t0, 1), "probes": round(t2 - t1, 1), "input_probes": round(time.time() - t2, 1)}
 
 
@@ -1256,6 +1364,26 @@ def replay(ctx, obj):
                 print("quadrature oracle failed:", ex)
             pol = obj.get("polarization", [1.0, 0.0, 0.0])
             print("polarization vectors:", p.propagate(polarization=pol))
+            if obj.get("kind") == "path_history":
+                times, xv = np.asarray(obj["times"]), np.asarray(obj["x"])
+                def q(pp):
+                    (ss, sp), _ = call_propagate(pp, pyrex.Signal(times, xv, value_type=pyrex.Signal.Type.field), pol, None)
+                    return float(pp.tof), np.asarray(pp.attenuation(np.array([1e8, 5e8]))), np.asarray(ss.values)[:4]
+                print("before any change: tof, attenuation, s output:", q(p))
+                for o_ in obj["ops"]:
+                    if o_["op"] == "assign":
+                        setattr(p, o_["attribute"], np.array(getattr(p, o_["attribute"]), float) + np.asarray(o_["offset"]))
+                    elif o_["op"] == "augmented":
+                        if o_["attribute"] == "to_point":
+                            p.to_point += np.asarray(o_["offset"])
+                        else:
+                            p.from_point += np.asarray(o_["offset"])
+                    elif o_["op"] == "inplace+reassign":
+                        arr = getattr(p, o_["attribute"]); arr[2] += o_["offset"][2]; setattr(p, o_["attribute"], arr)
+                    else:
+                        p.dz = o_["dz"]
+                    print("after %s of %s: this path  :" % (o_["op"], o_["attribute"]), q(p))
+                    print("                      new path with the same attributes:", q(fresh_path_like(p)))
             if "input_kind" in obj:
                 sig, groups, times = make_input(obj["input_kind"], random.Random(obj["input_seed"]))
                 interp = obj.get("attenuation_interpolation")
